@@ -226,7 +226,7 @@ func runC17HTTP(r *Run, rng *Rng, poolSize int) {
 		if !asSunset(err, &se) {
 			env.violate("readonly-sequencer-error", "sequencer stopped with %v at the read-only date", err)
 		}
-	case <-time.After(3 * time.Second):
+	case <-time.After(20 * time.Second):
 		env.violate("sequencer-still-running-after-readonly", "sequencer did not stop after the read-only instant")
 	}
 	before := env.PubSTH()
